@@ -160,6 +160,10 @@ func (r *rpcRecorder) OnApplied(*replica.Replica, string, *change.Pack) {}
 
 // ---- offline oracle ----
 
+// serverDetachedActors (C16 only): actors whose client was deactivated with documents
+// attached; set by the single-threaded oracle phase of a case, read by checkLogAndResponses.
+var serverDetachedActors = map[string]bool{}
+
 type logRow struct {
 	Actor     string
 	ClientSeq uint32
@@ -233,6 +237,12 @@ func checkLogAndResponses(evs []rpcEv, rows []logRow, res *runner.CaseResult) []
 			want = append(want, a...)
 		}
 		got := byActor[actor]
+		if serverDetachedActors[actor] && len(got) == len(want)+1 && fmt.Sprint(got[:len(want)]) == fmt.Sprint(want) {
+			// the server detached this client's document itself (deactivation with documents
+			// attached): ClusterService.DetachDocument pushes one presence-clear change in the
+			// client's name
+			got = got[:len(want)]
+		}
 		if fmt.Sprint(got) != fmt.Sprint(want) {
 			add("log-differs-from-pushes: actor %s: log holds clientSeqs %v, acknowledged pushes were %v (per attachment, in order)", actor, got, want)
 		}
